@@ -40,7 +40,7 @@ def run(tier):
         ctx, _ = gen.enumerate_blocks(gen.rule_vocab(gen.C3), gen.RULE_SHAPES_CTX, 3)
         chain, _ = gen.enumerate_blocks(gen.rule_vocab(gen.C3), gen.RULE_SHAPES_CHAIN, 3)
         blocks = basic + corpus.sample(ctx, 500, seed) + corpus.sample(chain, 1500, seed) + corpus.sample(const_blocks(V13), 800, seed)
-        wc = [("WordsCheck1.cfg", "8-bit")]
+        wc = [("WordsCheck1q.cfg", "8-bit (reduced operand set)")]
     else:
         basic, _ = gen.enumerate_blocks(gen.rule_vocab(gen.C9), gen.RULE_SHAPES_BASIC, 3)
         ctx, _ = gen.enumerate_blocks(gen.rule_vocab(gen.C5), gen.RULE_SHAPES_CTX, 3)
